@@ -43,7 +43,7 @@ class C02(Check):
     per_run_timeout = 240
     expected_probes = ["path:terminal-fast", "path:per-repetition", "feat:confusion", "feat:invert+confusion",
                        "feat:repeated-key", "feat:qudit-measure", "feat:classical-control", "feat:sympy-condition",
-                       "feat:bitmask-condition", "feat:indexed-condition", "feat:pauli-measure", "feat:reset", "feat:subcircuit", "feat:subcircuit-key-map", "feat:subcircuit-rep-ids",
+                       "feat:bitmask-condition", "feat:indexed-condition", "feat:pauli-measure", "feat:reset", "feat:subcircuit", "feat:subcircuit-key-map", "feat:subcircuit-rep-ids", "feat:nested-subcircuit-confusion",
                        "sim:sv", "sim:dm", "sim:clifford", "sim:stab-sampler", "entry:run", "entry:simulate",
                        "entry:steps", "entry:sample", "entry:run_sweep", "entry:sweep-from-state", "entry:direct-functions", "entry:wide-key-control", "entry:mux-qudit-reset", "init:density-matrix", "entry:stabilizer-measure", "entry:wide-register", "mux:clifford-only-as-product", "entry:step-sampling", "step-sampling:integer-seed", "direct:sample_from_amplitudes", "direct:measure_density_matrix", "gen:deep-clifford", "init:vector", "init:int", "order:permuted", "order:spectator"]
 
